@@ -388,6 +388,9 @@ struct C16 : Driver {
           if (in && !in_ok) { v = Verdict::fail("input-changed", "operand " + o.in + " was modified"); break; }
           if (!in && !out_complete) { v = Verdict::fail("data-lost", "operand " + o.in + ": input removed but output " + o.out + (out ? " is incomplete" : " is missing")); break; }
           if (out && !out_complete && !unlink_fault) { v = Verdict::fail("partial-output-left", "operand " + o.in + ": partial output " + o.out + " (" + std::to_string(out->data.size()) + " of " + std::to_string(o.expect.size()) + " bytes) remains after the process ended"); break; }
+          // the two allowed end states exclude each other: once the output is complete the input is gone (unless -k), also when the run then
+          // ends by a signal or with status 1 - lbzip2 keeps SIGINT/SIGTERM blocked from the creation of the output until the input is removed
+          if (!keep && in && out_complete && !unlink_fault) { v = Verdict::fail("both-present", "operand " + o.in + ": the output " + o.out + " is complete but the input was not removed (no -k): neither of the two allowed end states"); break; }
           if (out && out_complete && !out_closed && a.kind == sim::X_EXIT && (a.code == 0 || a.code == 4)) { v = Verdict::fail("output-not-closed", "status " + std::to_string(a.code) + " but " + o.out + " was never closed successfully"); break; }
           if (a.kind == sim::X_EXIT && (a.code == 0 || a.code == 4)) {
             if (!out_complete) { v = Verdict::fail("success-without-output", "status " + std::to_string(a.code) + " but operand " + o.in + " has no complete output"); break; }
@@ -410,14 +413,14 @@ static Registrar r16(new C16);
 // ===================================================================== C17
 struct OpSpec { std::string name; int kind; };
 // operand kinds
-enum { OK_REG = 0, OK_SYMLINK, OK_HARDLINK, OK_DIR, OK_MISSING, OK_UNREADABLE, OK_NKINDS };
+enum { OK_REG = 0, OK_SYMLINK, OK_HARDLINK, OK_DIR, OK_MISSING, OK_UNREADABLE, OK_FIFO, OK_CHARDEV, OK_NKINDS };
 
 struct C17 : Driver {
   const char *prop() const override { return "C17"; }
   const char *level() const override { return "exploration"; }
   uint64_t ncases(int tier) const override { return tier ? 1500000 : 120000; }
   std::string rule() const override {
-    return "case = random option set from {-d/-z, -k, -c, -t, -f} and 1-3 operands drawn from {regular, symlink to regular, hard-linked, directory, missing, unreadable} x {no suffix, .bz2, .tbz, .tbz2, .tz2, other suffix, empty stem}, optional pre-existing output "
+    return "case = random option set from {-d/-z, -k, -c, -t, -f} and 1-3 operands drawn from {regular, symlink to regular, hard-linked, directory, missing, unreadable, named pipe, character device} x {no suffix, .bz2, .tbz, .tbz2, .tz2, other suffix, empty stem}, optional pre-existing output "
            "(regular / dangling symlink / directory), random permission bits incl. setuid/setgid/sticky and nanosecond timestamps, run in the simulated file system under a seeded schedule; compared with an executable model of the documented rules: which operands are skipped with a warning, "
            "output names, output content, permission bits and atime/mtime copied, input removed or kept, existing files untouched without -f, exit status 0/4. Only what the statement promises is compared. The simulator contributes the controllable file system and schedule; the rules themselves are sequential. "
            "distinct_nontrivial = distinct (option set, operand kind, suffix, pre-existing output kind) tuples";
@@ -443,9 +446,10 @@ struct C17 : Driver {
     int nop = 1 + (int)rng.below(3);
     c.p["nop"] = nop;
     for (int i = 0; i < nop; i++) {
-      int kind = (int)rng.below(10); kind = kind < 4 ? OK_REG : kind - 3;   // REG over-weighted; 1..6 -> other kinds
+      int kind = (int)rng.below(12); kind = kind < 4 ? OK_REG : kind - 3;   // REG over-weighted; 1..8 -> other kinds
       if (kind >= OK_NKINDS) kind = OK_REG;
       if (force && (kind == OK_SYMLINK || kind == OK_DIR)) kind = OK_REG;        // -f on non-regular operands: outside the statement
+      if ((force || om != 0) && (kind == OK_FIFO || kind == OK_CHARDEV)) kind = OK_REG;   // named pipes / devices are only judged where the statement speaks: skipped when output files are written
       int suffix = (int)rng.below(7);
       std::string stem = suffix == 6 ? "" : std::string(1, (char)('p' + i)) + std::to_string(i);
       std::string name = stem + suffix_of(suffix);
@@ -463,6 +467,8 @@ struct C17 : Driver {
       case OK_UNREADABLE: f.noread = true; f.mode &= ~0444u; c.files.push_back(f); break;
       case OK_SYMLINK: { FileSpec t = f; t.name = "target" + std::to_string(i); c.files.push_back(t); FileSpec l; l.name = name; l.type = sim::T_LNK; l.data = t.name; l.mode = 0777; c.files.push_back(l); break; }
       case OK_DIR: { FileSpec d; d.name = name; d.type = sim::T_DIR; d.mode = 0755; c.files.push_back(d); break; }
+      case OK_FIFO: f.type = sim::T_FIFO; c.files.push_back(f); break;
+      case OK_CHARDEV: f.type = sim::T_CHR; c.files.push_back(f); break;
       default: break;   // missing
       }
       r.argv.push_back(name);
